@@ -122,7 +122,7 @@ class Stream:
         self.name = name; self.cases = 0; self.commands = 0; self.mismatches = 0
         self.distinct = set(); self.samples = []; self.dist = {}
 
-def compare_stream(ctx, name, cases, config="pinned", oracle=None, known=None, timeout=900, env=None):
+def compare_stream(ctx, name, cases, config="pinned", oracle=None, known=None, timeout=900, env=None, impl_only=False):
     """Run the cases through driver(config) and model; return dict(violations, known, coverage)."""
     res = {"violations": [], "known": [], "coverage": {}}
     if not cases:
@@ -135,7 +135,7 @@ def compare_stream(ctx, name, cases, config="pinned", oracle=None, known=None, t
         return res
     t0 = time.time()
     o_drv = run_cases(drv, cases, timeout, env)
-    o_mdl = run_cases(mdl, cases, timeout)
+    o_mdl = o_drv if impl_only else run_cases(mdl, cases, timeout)
     ncmd = sum(len(c.lines) for c in cases)
     nmis = 0
     seen_keys = set()
@@ -165,13 +165,13 @@ def compare_stream(ctx, name, cases, config="pinned", oracle=None, known=None, t
             continue
         def differs(cc, _kind=kind):
             od = run_cases(drv, [cc], 120, env)[0] or []
-            om = run_cases(mdl, [cc], 120)[0] or []
+            om = od if impl_only else (run_cases(mdl, [cc], 120)[0] or [])
             if _kind == "correspondence":
                 return first_diff(od, om) is not None
             return any(oracle(cc.lines[j] if j < len(cc.lines) else "", l) for j, l in enumerate(od))
         small = shrink(Case(c.lines[:k + 1], c.tag), drv, mdl, differs)
         od = run_cases(drv, [small], 120, env)[0] or []
-        om = run_cases(mdl, [small], 120)[0] or []
+        om = od if impl_only else (run_cases(mdl, [small], 120)[0] or [])
         key = (kind, tuple(small.lines))
         if key in seen_keys:
             continue
